@@ -63,6 +63,11 @@ pub struct Scen {
     pub c2s: Vec<u8>,
     pub s2c: Vec<u8>,
     pub rt_seed: u64,
+    /// how the server builder is used besides `timeout`: bit 0 `.layer(Identity)` after `.timeout(..)`,
+    /// bit 1 `.tcp_keepalive(Some(7 ms))` (another Option<Duration> knob that must not act as a deadline),
+    /// bit 2 `.layer(Identity)` before `.timeout(..)`
+    #[serde(default)]
+    pub srv_cfg: u8,
 }
 
 #[derive(Clone, Debug, Serialize, Deserialize)]
@@ -423,8 +428,10 @@ fn enforce_case() -> BoxedStrategy<Case> {
         (lat, free),
         // configured timeouts that are effectively unbounded (Duration::MAX): 0 none, 1 endpoint, 2 server, 3 both
         prop_oneof![12 => Just(0u8), 1 => Just(1u8), 1 => Just(2u8), 1 => Just(3u8)],
+        // a configured timeout of exactly zero: 0 none, 1 endpoint, 2 server; and the builder usage bits
+        (prop_oneof![10 => Just(0u8), 1 => Just(1u8), 1 => Just(2u8)], prop_oneof![3 => Just(0u8), 2 => 0u8..8]),
     )
-        .prop_flat_map(|(stream, rk, ep, srv, (base, g1, g2, min_idx), (unit_sel, pad, mal_sel), (lat, free), huge)| {
+        .prop_flat_map(|(stream, rk, ep, srv, (base, g1, g2, min_idx), (unit_sel, pad, mal_sel), (lat, free), huge, (zero, srv_cfg))| {
             (scen_script(stream), c02::wire_blob(false), c02::pipe_schedule(), c02::pipe_schedule(), any::<u64>()).prop_map(
                 move |(script, req, c2s, s2c, rt_seed)| {
                     // offsets of the three sources (req, ep, srv); the source `min_idx` gets the base itself
@@ -447,7 +454,13 @@ fn enforce_case() -> BoxedStrategy<Case> {
                         c2s: c2s.clone(),
                         s2c: s2c.clone(),
                         rt_seed,
+                        srv_cfg,
                     };
+                    match zero {
+                        1 => s.ep_us = Some(0),
+                        2 => s.srv_us = Some(0),
+                        _ => {}
+                    }
                     // u64::MAX microseconds stands for Duration::MAX ("no timeout" spelled as a huge one)
                     if huge & 1 != 0 {
                         s.ep_us = Some(u64::MAX);
@@ -875,14 +888,45 @@ fn run_enforce(s: &Scen, o: &mut Outcome) -> Result<(), Failure> {
     let srv_to = s.srv_us.map(dur);
     o.label_if(s.ep_us == Some(u64::MAX) || s.srv_us == Some(u64::MAX), "enf_configured_timeout_duration_max");
     let msg = s.req.bytes();
+    let srv_cfg = s.srv_cfg;
+    o.label_if(srv_cfg & 5 != 0, "enf_server_builder_with_layer");
+    o.label_if(srv_cfg & 2 != 0, "enf_server_tcp_keepalive_set");
+    o.label_if(s.ep_us == Some(0) || s.srv_us == Some(0), "enf_configured_timeout_zero");
     let res = rt::run_virtual(s.rt_seed, Duration::from_secs(100_000_000), async move {
-        let server = tonic::transport::Server::builder();
-        let mut server = match srv_to {
-            Some(d) => server.timeout(d),
-            None => server,
+        let mut server = tonic::transport::Server::builder();
+        if srv_cfg & 2 != 0 {
+            server = server.tcp_keepalive(Some(Duration::from_millis(7)));
+        }
+        macro_rules! start {
+            ($server:expr) => {{
+                let mut server = $server;
+                let router = server.add_service(vt::raw_server::RawServer::new(sh2.clone()));
+                tokio::spawn(async move { router.serve_with_incoming(incoming).await })
+            }};
+        }
+        let with_to = |s: tonic::transport::Server| match srv_to {
+            Some(d) => s.timeout(d),
+            None => s,
         };
-        let router = server.add_service(vt::raw_server::RawServer::new(sh2.clone()));
-        let srv = tokio::spawn(async move { router.serve_with_incoming(incoming).await });
+        let srv = match srv_cfg & 5 {
+            0 => start!(with_to(server)),
+            1 => start!(with_to(server).layer(tower::layer::util::Identity::new())),
+            4 => {
+                let s = server.layer(tower::layer::util::Identity::new());
+                start!(match srv_to {
+                    Some(d) => s.timeout(d),
+                    None => s,
+                })
+            }
+            _ => {
+                let s = server.layer(tower::layer::util::Identity::new());
+                let s = match srv_to {
+                    Some(d) => s.timeout(d),
+                    None => s,
+                };
+                start!(s.layer(tower::layer::util::Identity::new()))
+            }
+        };
         let ch = match channel_with_timeout(&net, ep).await {
             Ok(ch) => ch,
             Err(e) => return Err(format!("connect failed: {e:?}")),
